@@ -86,13 +86,13 @@ impl Archive {
     pub fn read_patch_file_raw(&mut self, _name: &str) -> Result<Vec<u8>> {
         Err(Error::FileNotFound(String::new()))
     }
-    /// always two entries (concrete shape): an absent X is listed as the filler name P, an absent Y as Q; the
-    /// fillers are never queried, so "archive lacks X" and "archive holds P instead" are the same to the chain
+    /// always two entries (concrete shape): an absent X or Y is listed as the filler name P; the filler is
+    /// never queried, so "archive lacks X" and "archive holds P instead" are the same to the chain
     fn entries(&self) -> Vec<FileEntry> {
         let s = reg_get(self.slot);
         let lower = self.slot == 1;
         let n0: &str = if s.present[0] { if lower { "x" } else { "X" } } else { "P" };
-        let n1: &str = if s.present[1] { if lower { "y" } else { "Y" } } else { "Q" };
+        let n1: &str = if s.present[1] { if lower { "y" } else { "Y" } } else { "P" };
         let mut v = Vec::with_capacity(2);
         v.push(FileEntry { name: String::from(n0), size: 1, compressed_size: 1, flags: 0, hashes: None, table_indices: None });
         v.push(FileEntry { name: String::from(n1), size: 1, compressed_size: 1, flags: 0, hashes: None, table_indices: None });
